@@ -105,8 +105,11 @@ class FileProxy:
 class Interposer:
     """plan: None (dry run: record calls) or dict(k=index, mode="fail"|"crash"|"torn", err="ENOSPC")."""
 
-    def __init__(self, root, plan=None):
+    def __init__(self, root, plan=None, extra_roots=()):
         self.root = os.path.realpath(root)
+        # further directories whose I/O is enumerated too (the sharded writer's
+        # temporary files live in TMPDIR); paths are logged relative to `root`
+        self.roots = [self.root] + [os.path.realpath(r) for r in extra_roots]
         self.plan = plan
         self.calls = []
         self.crashed = False
@@ -119,7 +122,7 @@ class Interposer:
             p = os.path.realpath(os.fspath(path))
         except TypeError:
             return False
-        return p == self.root or p.startswith(self.root + os.sep)
+        return any(p == r or p.startswith(r + os.sep) for r in self.roots)
 
     def _crash_now(self):
         self.crashed = True
